@@ -37,6 +37,7 @@ GNext ==
      \/ (budget \in GenReqAt \/ ~hasShard) /\ RequestCopy /\ Log([a |-> "RequestCopy"])
      \/ SrcMissing /\ Log([a |-> "SrcMissing"])
      \/ \E sn \in {0, lastBegin} : (round = 0 => sn = 0) /\ BackupBegin(sn) /\ Log([a |-> "BackupBegin", v |-> sn])
+     \/ \E k \in SnapFails : GenFocus = "copy" /\ BackupBeginFail(k) /\ Log([a |-> "BackupBeginFail", x |-> k])
      \/ BackupStream /\ Log([a |-> "BackupStream"])
      \/ BackupEnd /\ Log([a |-> "BackupEnd"])
      \* no cut on top of a backup that already misses the cache (one finding per scenario)
